@@ -75,6 +75,7 @@ type Result struct {
 	Verdict    string          `json:"verdict"` // ok | violation | skip | harness-error
 	Class      string          `json:"class,omitempty"`
 	Msg        string          `json:"msg,omitempty"`
+	Blob       []byte          `json:"blob,omitempty"` // raw bytes handed back by a child process (base64 in JSON)
 	Sig        string          `json:"sig,omitempty"` // what a known-finding entry is matched against
 	Key        string          `json:"key,omitempty"` // distinctness key of this run
 	NonTrivial bool            `json:"nontrivial,omitempty"`
